@@ -10,7 +10,8 @@ PROP = dict(
                        "Comdex.C13.collector_shortfall_bounded", "Comdex.C13.collector_custody_ge_sum_netfees_partial",
                        "Comdex.C13.collector_custody_ge_sum_netfees_counterexample",
                        "Comdex.C13.collector_custody_ge_sum_netfees_counterexample_debt",
-                       "Comdex.C13.netfees_delta_exact_partial", "Comdex.C13.netfees_delta_exact_counterexample"],
+                       "Comdex.C13.netfees_delta_exact_partial", "Comdex.C13.netfees_delta_exact_counterexample",
+                       "Comdex.C13.repaired_surplus_close_exact", "Comdex.C13.repaired_debt_close_exact"],
     harness_tests=["TestC13"],
     trusted_base=[KERNEL_TB, HARNESS_TB,
                   "Model/Locker.lean is hand-written from x/locker/keeper/msg_server.go, x/locker/keeper/locker.go, "
